@@ -222,6 +222,7 @@ type workerOut struct {
 	Wits        []witness      `json:"wits"`
 	OpKinds     map[string]int `json:"op_kinds"`
 	// keys hammered while their (single) deadline passed
+	ExpiryStorms  int `json:"expiry_storms"`
 	ExpiryRounds  int `json:"expiry_rounds"`
 	ExpirySkipped int `json:"expiry_rounds_skipped_slow_setup"`
 	ExpiryKeys    int `json:"expiry_keys"`
@@ -1290,7 +1291,10 @@ func (rn *runner) historyC13(r *rand.Rand, shards int) {
 }
 
 // stormC13 mixes every multi-key command in both argument orders with single-key writers: lock-order coverage only.
-func (rn *runner) stormC13(r *rand.Rand, shards int) {
+// With expiring, two of the four keys of every type carry a deadline that passes in the middle of the storm: between
+// the deadline second and the key's own timer the dead value is still stored, and every multi-key command that meets
+// it (as source, destination or operand) has to get rid of it without taking a stripe it already holds.
+func (rn *runner) stormC13(r *rand.Rand, shards int, expiring bool) {
 	in := inproc.New()
 	defer in.Stop()
 	keys := pickKeys(r, shards, 4, []string{"same-stripe", "same-shard-other-stripe", "independent"}[r.Intn(3)])
@@ -1298,6 +1302,28 @@ func (rn *runner) stormC13(r *rand.Rand, shards int) {
 		in.Exec(respc.Cmd("SADD", "s:"+k, "a", "b", "c"), nil)
 		in.Exec(respc.Cmd("RPUSH", "l:"+k, "a", "b"), nil)
 		in.Exec(respc.Cmd("SET", k, "v"), nil)
+	}
+	var until time.Time
+	if expiring {
+		for _, k := range keys[2:] {
+			in.Exec(respc.Cmd("SADD", "s:"+k, "a", "b", "c"), nil)
+			in.Exec(respc.Cmd("RPUSH", "l:"+k, "a", "b", "c", "d"), nil)
+			in.Exec(respc.Cmd("SET", k, "v"), nil)
+		}
+		// attach the deadlines late in a second: the timers then fire late in the deadline second
+		now := time.Now()
+		at := now.Truncate(time.Second).Add(time.Duration(700+r.Intn(200)) * time.Millisecond)
+		if at.Before(now) {
+			at = at.Add(time.Second)
+		}
+		time.Sleep(time.Until(at))
+		for _, k := range keys[2:] {
+			for _, pre := range []string{"s:", "l:", ""} {
+				in.Exec(respc.Cmd("EXPIRE", pre+k, "1"), nil)
+			}
+		}
+		until = time.Now().Truncate(time.Second).Add(1950 * time.Millisecond)
+		rn.out.ExpiryStorms++
 	}
 	var wg sync.WaitGroup
 	var kmu sync.Mutex
@@ -1310,8 +1336,12 @@ func (rn *runner) stormC13(r *rand.Rand, shards int) {
 		go func(ci int) {
 			defer wg.Done()
 			cr := rand.New(rand.NewSource(stormSeeds[ci]))
-			for i := 0; i < 40; i++ {
+			for i := 0; i < 40 || (expiring && time.Now().Before(until)); i++ {
 				a, b, d := keys[cr.Intn(4)], keys[cr.Intn(4)], keys[cr.Intn(4)]
+				if expiring {
+					// paced, so that the commands spread over the deadline second instead of reaping everything at once
+					time.Sleep(time.Duration(cr.Intn(40)) * time.Millisecond)
+				}
 				var cmd [][]byte
 				switch cr.Intn(14) {
 				case 0:
@@ -1336,7 +1366,7 @@ func (rn *runner) stormC13(r *rand.Rand, shards int) {
 					cmd = respc.Cmd("EXISTS", a, b, a)
 				case 10:
 					cmd = respc.Cmd("BLPOP", "l:"+a, "l:"+b, "1")
-					if cr.Intn(4) != 0 {
+					if cr.Intn(4) != 0 || expiring {
 						cmd = respc.Cmd("RPUSH", "l:"+a, "x")
 					}
 				case 11:
@@ -1366,6 +1396,9 @@ func (rn *runner) stormC13(r *rand.Rand, shards int) {
 		os.Exit(3)
 	}
 	rn.out.Ops += 240
+	if expiring {
+		time.Sleep(time.Until(until.Add(100 * time.Millisecond))) // the per-key timers have fired
+	}
 	rn.quiesce(in, "C13 storm")
 }
 
@@ -1394,7 +1427,7 @@ func worker(o *common.Opts) {
 		fmt.Fprintf(j, "history %d\n", h)
 		if *fProp == "C13" {
 			if h%5 == 4 {
-				rn.stormC13(r, *fShards)
+				rn.stormC13(r, *fShards, h%10 == 9)
 			} else {
 				rn.historyC13(r, *fShards)
 			}
@@ -1541,6 +1574,7 @@ func main() {
 			agg.Unknown += w.Unknown
 			agg.Overlapping += w.Overlapping
 			agg.Conserv += w.Conserv
+			agg.ExpiryStorms += w.ExpiryStorms
 			agg.ExpiryRounds += w.ExpiryRounds
 			agg.ExpirySkipped += w.ExpirySkipped
 			agg.ExpiryKeys += w.ExpiryKeys
@@ -1642,24 +1676,25 @@ func main() {
 		"ShardNum in {1,2,4}, GOMAXPROCS in {2,4,16}, yields/sleeps at the verif yield points; a churn client (SET/DEL other keys) and a KEYS/EXISTS client run alongside; written values are unique. distinct = distinct interleaving signatures (hash of the per-key order of (client, command) by call time with the overlap relation)"
 	if prop == "C13" {
 		rule = "concurrent histories of 3-6 clients x 8-15 commands over a group of 2-3 keys (MSET with whole-vector values / RENAME / SET / GET / DEL; LMOVE in all directions / RPUSH / LPOP / LRANGE; SMOVE / SADD / SISMEMBER / SMEMBERS) checked jointly (no key partitioning) plus storms of every multi-key command " +
-			"(set algebra and STORE forms, multi-key DEL/EXISTS/BLPOP) in both argument orders with repeated keys; key groups collide on a stripe, share a shard, or are independent; every stripe lock event feeds a lockdep-style monitor. distinct = distinct interleaving signatures"
+			"(set algebra and STORE forms, multi-key DEL/EXISTS/BLPOP) in both argument orders with repeated keys, half of the storms with deadlines that pass during the storm on half of the keys (dead values still stored when the multi-key commands meet them); key groups collide on a stripe, share a shard, or are independent; every stripe lock event feeds a lockdep-style monitor. distinct = distinct interleaving signatures"
 	}
 	ev := &evidence.Evidence{PropertyID: prop, Tier: o.Tier, Seed: o.Seed, Level: "exploration", WallS: o.Elapsed(), Violations: violations,
 		Coverage: map[string]any{
-			"evaluations":                    agg.Histories,
-			"distinct_nontrivial":            len(agg.Signatures),
-			"rule":                           rule,
-			"samples":                        []any{"c0 INCR k1 || c1 INCR k1 || c2 GET k1 (same stripe as k2: c3 LPUSH k2 c3-0)", "c0 MSET a c0-1 b c0-1 || c1 MSET b c1-1 a c1-1 || c2 GET a; GET b", "c0 LMOVE x y LEFT RIGHT || c1 LMOVE y x RIGHT LEFT"},
-			"operations":                     agg.Ops,
-			"histories_decided_by_porcupine": agg.Decided,
-			"histories_porcupine_unknown":    agg.Unknown,
-			"histories_with_overlapping_rmw": agg.Overlapping,
-			"collision_classes":              agg.Classes,
-			"commands_by_name":               agg.OpKinds,
-			"quiescence_checks":              agg.Conserv,
-			"expiry_crossing_rounds":         agg.ExpiryRounds,
-			"expiry_crossing_rounds_skipped": agg.ExpirySkipped,
-			"expiry_crossing_keys":           agg.ExpiryKeys,
+			"evaluations":                             agg.Histories,
+			"distinct_nontrivial":                     len(agg.Signatures),
+			"rule":                                    rule,
+			"samples":                                 []any{"c0 INCR k1 || c1 INCR k1 || c2 GET k1 (same stripe as k2: c3 LPUSH k2 c3-0)", "c0 MSET a c0-1 b c0-1 || c1 MSET b c1-1 a c1-1 || c2 GET a; GET b", "c0 LMOVE x y LEFT RIGHT || c1 LMOVE y x RIGHT LEFT"},
+			"operations":                              agg.Ops,
+			"histories_decided_by_porcupine":          agg.Decided,
+			"histories_porcupine_unknown":             agg.Unknown,
+			"histories_with_overlapping_rmw":          agg.Overlapping,
+			"collision_classes":                       agg.Classes,
+			"commands_by_name":                        agg.OpKinds,
+			"quiescence_checks":                       agg.Conserv,
+			"multi_key_storms_with_deadlines_passing": agg.ExpiryStorms,
+			"expiry_crossing_rounds":                  agg.ExpiryRounds,
+			"expiry_crossing_rounds_skipped":          agg.ExpirySkipped,
+			"expiry_crossing_keys":                    agg.ExpiryKeys,
 			"expiry_crossing_keys_with_acknowledged_updates_on_both_sides_of_the_deadline": agg.ExpiryCrossed,
 			"race_reports":                    races,
 			"race_reports_first_party":        raceFP,
